@@ -693,6 +693,119 @@ func TestVerifC06(t *testing.T) {
 			}
 		}
 	}
+	c06Namespace(t, out)
+}
+
+// c06Namespace: the secret / wrap / login / create flows inside a CHILD namespace (secrets engine, credential backend,
+// policies and requester all belong to namespace c06ns/), with every single fault position. Only the property's
+// predicate is evaluated (the key classes of the root-namespace model do not carry over): a response that hands out a
+// secret or token needs exactly one new lease entry in the namespace's storage; a failed request leaves no live
+// secret at the backend (issued = revoked) and no new lease entry. Op lines: nsflow <flow> <k> => good | bad:<why>.
+func c06Namespace(t *testing.T, out *vh.Out) {
+	e := c06NewEnv(t)
+	c, root := e.c, e.root
+	if cl, _ := vhReq(c, logical.UpdateOperation, "sys/namespaces/c06ns", root, nil); cl != "ok" {
+		t.Fatalf("namespace: %s", cl)
+	}
+	if cl, _ := vhReq(c, logical.UpdateOperation, "c06ns/sys/mounts/rec", root, map[string]any{"type": "vhrec"}); cl != "ok" {
+		t.Fatal("ns mount", cl) // e.rec now is the namespace's engine
+	}
+	if cl, _ := vhReq(c, logical.UpdateOperation, "c06ns/sys/auth/c06", root, map[string]any{"type": "c06auth"}); cl != "ok" {
+		t.Fatal("ns auth mount", cl)
+	}
+	if cl, _ := vhReq(c, logical.UpdateOperation, "c06ns/sys/policies/acl/c06pol", root, map[string]any{"policy": c06PolicyText}); cl != "ok" {
+		t.Fatal("ns policy", cl)
+	}
+	nsObj, err := c.namespaceStore.GetNamespaceByPath(vhRootCtx(), "c06ns/")
+	if err != nil || nsObj == nil {
+		t.Fatalf("namespace lookup: %v", err)
+	}
+	pre := "namespaces/" + nsObj.UUID + "/"
+	leaseKeys := func() map[string]bool {
+		m := map[string]bool{}
+		for _, k := range e.p.AllKeys() {
+			if strings.HasPrefix(k, pre+"sys/expire/id/") {
+				m[k] = true
+			}
+		}
+		return m
+	}
+	requester := func() string {
+		cl, resp := vhReq(c, logical.UpdateOperation, "c06ns/auth/token/create", root, map[string]any{"ttl": "1h", "policies": []string{"c06pol"}})
+		if cl != "ok" || resp == nil || resp.Auth == nil {
+			t.Fatalf("ns requester: %s", cl)
+		}
+		return resp.Auth.ClientToken
+	}
+	run := func(flow, tok string) (string, *logical.Response) {
+		switch flow {
+		case "secret":
+			return vhReq(c, logical.ReadOperation, "c06ns/rec/lease/a", tok, nil)
+		case "wrap":
+			req := &logical.Request{Operation: logical.ReadOperation, Path: "c06ns/rec/lease/a", ClientToken: tok,
+				WrapInfo: &logical.RequestWrapInfo{TTL: 5 * time.Minute}}
+			req.SetTokenEntry(nil)
+			resp, err := c.HandleRequest(vhRootCtx(), req)
+			return vhClass(resp, err), resp
+		case "login":
+			return vhReq(c, logical.UpdateOperation, "c06ns/auth/c06/login", "", map[string]any{"type": "service", "ttl": 3600, "pol": "c06pol"})
+		default:
+			return vhReq(c, logical.UpdateOperation, "c06ns/auth/token/create", tok, map[string]any{"ttl": "20m", "policies": []string{"c06pol"}})
+		}
+	}
+	for _, flow := range []string{"secret", "wrap", "login", "create"} {
+		// dry run: number of storage ops of the request
+		tok := requester()
+		e.p.Tag(0)
+		e.p.StartRecording()
+		run(flow, tok)
+		ops := e.p.StopRecording()
+		e.p.Untag()
+		n := 0
+		for _, o := range ops {
+			if o.Thread == 0 {
+				n++
+			}
+		}
+		c06Quiesce(e.p)
+		for k := 0; k <= n; k++ {
+			tok := requester()
+			c06Quiesce(e.p)
+			before := leaseKeys()
+			i0, r0 := e.counts()
+			e.p.Tag(0)
+			e.p.FailNth(0, k)
+			cl, resp := run(flow, tok)
+			e.p.ClearFaults()
+			e.p.Untag()
+			c06Quiesce(e.p)
+			i1, r1 := e.counts()
+			added := 0
+			for key := range leaseKeys() {
+				if !before[key] {
+					added++
+				}
+			}
+			handed := resp != nil && (resp.Secret != nil || (resp.Auth != nil && resp.Auth.ClientToken != "") || (resp.WrapInfo != nil && resp.WrapInfo.Token != ""))
+			res := "good"
+			switch {
+			case cl == "ok" && handed && added < 1:
+				res = fmt.Sprintf("bad:handed out without a lease entry in the namespace (flow %s, fault %d)", flow, k)
+			case cl != "ok" && flow == "wrap" && (i1-i0)-(r1-r0) > added:
+				// (a failed wrapping may leave the secret live as long as it is durably leased: it then expires on its own)
+				res = fmt.Sprintf("bad:wrapping failed (%s) and the generated secret is neither revoked nor leased in the namespace (fault %d)", cl, k)
+			case cl != "ok" && flow != "wrap" && (i1-i0) != (r1-r0):
+				res = fmt.Sprintf("bad:request failed (%s) but %d secret(s) issued and %d revoked at the namespace's backend (flow %s, fault %d)", cl, i1-i0, r1-r0, flow, k)
+			case cl != "ok" && added > 0 && flow != "wrap":
+				res = fmt.Sprintf("bad:request failed (%s) and left %d new lease entr(ies) (flow %s, fault %d)", cl, added, flow, k)
+			}
+			if res != "good" {
+				res += "!VIOL:" + strings.TrimPrefix(res, "bad:") + "#C06:namespace-" + flow
+			}
+			out.Op(res, "nsflow", flow, vh.I(int64(k)))
+		}
+	}
+	_ = c.Shutdown()
 }
 
 func TestVerifC06RegAuth(t *testing.T) {
